@@ -1196,6 +1196,63 @@ def conv_input(rt, i, proto, obs=None):
 HELPER_OF = {(False, False): "H_unary_unary", (False, True): "H_unary_stream", (True, False): "H_stream_unary", (True, True): "H_stream_stream"}
 
 
+def large_echo_stage(ctx):
+    """oracle only: a stream-stream echo whose request stream is a plain LIST and whose total volume (12 x 1 MiB) exceeds grpclib's
+    flow-control windows (4 MiB): the handler answers each request as it arrives, so sending has to overlap receiving for EVERY kind
+    of request source (seeded change C11-8: plain iterables sent inline before the response loop). Transport behaviour is outside
+    the Coq model; what is required here is the property's own clause - every response, equal and in order - within a time limit."""
+    import subprocess
+    root = f"c11big{os.getpid()}"
+    protos = {"big/echo.proto": 'syntax = "proto3";\npackage big;\nmessage Blob { bytes data = 1; int32 seq = 2; }\n'
+                                 'service Echo { rpc Chat (stream Blob) returns (stream Blob); }\n'}
+    rc, out, _ = pu.generate(ctx.work, protos, root)
+    if rc != 0:
+        ctx.fail("oracle", "the plugin fails on the echo service", cls=None, input={"protos": protos}, observed=out[-500:])
+        return
+    code = f'''
+import asyncio, sys
+from grpclib.testing import ChannelFor
+import {root}.big as b
+N, SIZE = 12, 1 << 20
+class Impl(b.EchoBase):
+    async def chat(self, it):
+        async for r in it:
+            yield b.Blob(data=r.data, seq=r.seq + 1000)
+async def main(kind):
+    reqs = [b.Blob(data=bytes([i]) * SIZE, seq=i) for i in range(N)]
+    async def agen():
+        for r in reqs:
+            yield r
+    src = {{"list": reqs, "tuple": tuple(reqs), "gen": (r for r in reqs), "agen": agen()}}[kind]
+    got = []
+    async with ChannelFor([Impl()]) as ch:
+        async for r in b.EchoStub(ch).chat(src):
+            got.append((r.seq, len(r.data), r.data[:1]))
+    return got
+for kind in ("list", "gen", "agen"):
+    try:
+        got = asyncio.run(asyncio.wait_for(main(kind), 40))
+        ok = got == [(i + 1000, 1 << 20, bytes([i])) for i in range(12)]
+        print(kind, "OK" if ok else "WRONG " + repr(got)[:200])
+    except asyncio.TimeoutError:
+        print(kind, "HANG")
+    except BaseException as e:
+        print(kind, "EXC", type(e).__name__, str(e)[:200])
+'''
+    rc, out = pu.run_in_subprocess(ctx.work, code, timeout=200)
+    ctx.count("large_echo_runs")
+    lines = [l for l in out.splitlines() if l.split(" ")[0] in ("list", "gen", "agen")]
+    if rc != 0 or len(lines) != 3:
+        ctx.fail("oracle", "the large bidirectional echo could not be run", cls=None, input={"protos": protos}, observed=out[-800:])
+        return
+    for l in lines:
+        kind, verdict = l.split(" ", 1)
+        if verdict != "OK":
+            ctx.fail("oracle", f"stream-stream echo of 12 x 1 MiB with a {kind} request source: {verdict} (the handler answers each request as it "
+                     "arrives; the caller must receive all 12 responses, equal and in order)", cls=None,
+                     input={"protos": protos, "request_source": kind, "messages": 12, "bytes_each": 1 << 20})
+
+
 def conv_stage(ctx, rts):
     """returns nothing; records failures in ctx"""
     rng = ctx.rng
@@ -1544,6 +1601,13 @@ def run(ctx):
     except BaseException as e:  # noqa
         ctx.fail("corr", f"reflection of the probe service failed: {type(e).__name__}: {e}", no_input=True,
                  theorem_or_correspondence="C11_tables (T1 reflection)", traceback=traceback.format_exc()[-1500:])
+
+    # ------------------------------------------------------------------ a bidirectional echo larger than the HTTP/2 windows
+    try:
+        large_echo_stage(ctx)
+    except Exception as e:  # noqa
+        ctx.fail("crash", f"the large-echo stage raised {type(e).__name__}: {e}", no_input=True,
+                 theorem_or_correspondence="C11 oracle (large bidirectional echo)", traceback=traceback.format_exc()[-1500:])
 
     # ------------------------------------------------------------------ conversational protocols (Model/GrpcConv.v)
     try:
